@@ -2944,6 +2944,22 @@ impl LineBuf {
 				MotionKind::On(target_pos)
 			}
 			MotionCmd(_count,Motion::WholeBuffer) => MotionKind::Exclusive((0,self.grapheme_indices().len())),
+			MotionCmd(_count,ref buffer_end @ (Motion::BeginningOfBuffer | Motion::EndOfBuffer)) if verb.is_none() && !self.is_selecting() => {
+				// As a plain motion 'gg' and 'G' go to the first non-blank of the first / last line
+				let target_line = match buffer_end {
+					Motion::BeginningOfBuffer => 0,
+					_ => self.last_line_number()
+				};
+				let Some((start,end)) = self.line_bounds(target_line) else {
+					return MotionKind::Null
+				};
+				let mut pos = start;
+				while pos + 1 < end && self.grapheme_at(pos).is_some_and(|gr| gr != "\n" && is_whitespace(gr)) && self.grapheme_at(pos + 1).is_some_and(|gr| gr != "\n") {
+					pos += 1;
+				}
+				self.saved_col = None;
+				MotionKind::On(pos)
+			}
 			MotionCmd(_count,Motion::BeginningOfBuffer) => {
 				let lines_up = self.cursor_line_number();
 				let cursor_col = self.cursor_col();
@@ -2951,7 +2967,8 @@ impl LineBuf {
 				MotionKind::LineOffset(-(lines_up as isize))
 			}
 			MotionCmd(_count,Motion::EndOfBuffer) => {
-				let lines_down = self.total_lines() - self.cursor_line_number();
+				// down to the last line (the position after a final newline is not a line)
+				let lines_down = self.last_line_number().saturating_sub(self.cursor_line_number());
 				let cursor_col = self.cursor_col();
 				self.saved_col = Some(cursor_col);
 				MotionKind::LineOffset(lines_down as isize)
@@ -3818,19 +3835,17 @@ impl LineBuf {
 			}
 			Verb::InsertModeLineBreak(anchor) => {
 				let (mut start,end) = self.this_line();
-				if start == 0 && end == self.cursor.max {
-					match anchor {
-						Anchor::After => {
-							self.push('\n');
-							self.cursor.set(self.cursor_max());
-							return Ok(())
-						}
-						Anchor::Before => {
-							self.insert_at(0, '\n');
-							self.cursor.set(0);
-							return Ok(())
-						}
-					}
+				if start == 0 && matches!(anchor, Anchor::Before) {
+					// 'O' on the first line: the new line becomes the first one
+					self.insert_at(0, '\n');
+					self.cursor.set(0);
+					return Ok(())
+				}
+				if start == 0 && end == self.cursor.max && !self.buffer.ends_with('\n') {
+					// 'o' on the only line, which has no terminator yet
+					self.push('\n');
+					self.cursor.set(self.cursor_max());
+					return Ok(())
 				}
 				// We want the position of the newline, or start of buffer
 				start = start.saturating_sub(1).min(self.cursor.max);
